@@ -1815,8 +1815,8 @@ func (w *transformingWriter) Close() error {
 		if err := w.flushMessage(); err != nil {
 			w.rw.reportError(err)
 		}
-	} else if w.buffer != nil && w.buffer.Len() > 0 {
-		// Unfinished body!
+	} else if w.buffer != nil && (w.buffer.Len() > 0 || !w.writingEnvelope) {
+		// Unfinished body! (Possibly an envelope whose message never started.)
 		if w.writingEnvelope {
 			w.rw.reportError(fmt.Errorf("handler only wrote %d out of %d bytes of message envelope", w.buffer.Len(), envelopeLen))
 		} else {
